@@ -182,6 +182,14 @@ class PeerBase:
                 # abortive close: the other side sees a TCP reset instead of an orderly end
                 c.reset = True
                 raise _Abort()
+            elif op == 'urgent_reset_before':
+                # one byte of TCP urgent data, then an abortive close: the other side's socket is readable, exceptional and reset at once
+                try:
+                    c.sock.send(b'!', socket.MSG_OOB)
+                except OSError:
+                    pass
+                c.reset = True
+                raise _Abort()
             elif op == 'stall_before':
                 self._stall(c)
             elif op == 'delay':
@@ -341,6 +349,9 @@ class PeerBase:
                 if ans is None:
                     raise _Abort()
                 p = wire.det_int(ans, b'gex')
+                if (self.script.get('gex') or {}).get('top_ones'):
+                    # like the RFC 2409 / RFC 3526 groups: the leading 64 bits are all ones
+                    p |= ((1 << 64) - 1) << (ans - 64)
                 self.send(c, 'gexgroup', wire.packet(wire.gex_group(p)))
             elif t == wire.MSG_GEX_INIT:
                 self.log('gex-init', c.idx, n=len(payload))
